@@ -1,0 +1,100 @@
+//go:build verif
+
+package jrpc2
+
+import (
+	"context"
+	"sort"
+
+	"github.com/indexsupply/shovel/eth"
+)
+
+// Verification hooks for the source-side caches (property C08).  Thin
+// wrappers only: they construct the unexported cache / NumHash, call their
+// unexported methods and read their fields under the locks the code itself
+// uses.  Nothing here is compiled without the build tag `verif`.
+
+// VerifCache wraps the segment cache.
+type VerifCache struct{ c cache }
+
+func VerifNewCache(maxreads int) *VerifCache {
+	return &VerifCache{c: cache{maxreads: maxreads}}
+}
+
+// Get calls cache.get with the given getter.
+func (v *VerifCache) Get(nocache bool, start, limit uint64, f func(start, limit uint64) ([]eth.Block, error)) ([]eth.Block, error) {
+	return v.c.get(nocache, context.Background(), "", start, limit,
+		func(_ context.Context, _ string, s, l uint64) ([]eth.Block, error) { return f(s, l) })
+}
+
+// VerifSegment is one entry of the segment map.
+type VerifSegment struct {
+	Start, Limit uint64
+	Nreads       int
+	Done         bool
+	Len          int
+}
+
+func dumpCache(c *cache) []VerifSegment {
+	c.Lock()
+	defer c.Unlock()
+	var res []VerifSegment
+	for k, s := range c.segments {
+		s.Lock()
+		res = append(res, VerifSegment{Start: k.a, Limit: k.b, Nreads: s.nreads, Done: s.done, Len: len(s.d)})
+		s.Unlock()
+	}
+	sort.Slice(res, func(i, j int) bool {
+		if res[i].Start != res[j].Start {
+			return res[i].Start < res[j].Start
+		}
+		return res[i].Limit < res[j].Limit
+	})
+	return res
+}
+
+// Segments returns the current segment map sorted by (start, limit).
+func (v *VerifCache) Segments() []VerifSegment { return dumpCache(&v.c) }
+
+// VerifNumHash wraps the head cache.
+type VerifNumHash struct{ nh NumHash }
+
+func VerifNewNumHash(maxreads int) *VerifNumHash {
+	return &VerifNumHash{nh: NumHash{maxreads: maxreads}}
+}
+
+func (v *VerifNumHash) Update(n uint64, h []byte) { v.nh.update(eth.Uint64(n), h) }
+func (v *VerifNumHash) Error(err error)           { v.nh.error(err) }
+func (v *VerifNumHash) Get(n uint64) (uint64, []byte, bool) {
+	return v.nh.get(context.Background(), n)
+}
+
+// VerifHeadState is the content of a head cache.
+type VerifHeadState struct {
+	Num    uint64
+	Hash   []byte
+	Nreads int
+	HasErr bool
+}
+
+func dumpHead(nh *NumHash) VerifHeadState {
+	nh.Lock()
+	defer nh.Unlock()
+	return VerifHeadState{
+		Num:    uint64(nh.Num),
+		Hash:   append([]byte(nil), nh.Hash...),
+		Nreads: nh.nreads,
+		HasErr: nh.err != nil,
+	}
+}
+
+func (v *VerifNumHash) State() VerifHeadState { return dumpHead(&v.nh) }
+
+// Client-level access: the two segment caches and the head cache of a Client.
+func VerifClientBlockSegments(c *Client) []VerifSegment  { return dumpCache(&c.bcache) }
+func VerifClientHeaderSegments(c *Client) []VerifSegment { return dumpCache(&c.hcache) }
+func VerifClientHeadState(c *Client) VerifHeadState      { return dumpHead(&c.lcache) }
+
+// What the poller / websocket listener do with an announcement or a failure.
+func VerifClientHeadUpdate(c *Client, n uint64, h []byte) { c.lcache.update(eth.Uint64(n), h) }
+func VerifClientHeadError(c *Client, err error)           { c.lcache.error(err) }
